@@ -444,15 +444,13 @@ func runC15(c *Ctx) {
 		}
 		for sec := range playerSecrets {
 			_, f := splitLoc(sec)
-			for _, phase := range []string{"open", "closed"} {
+			{
 				var bad []string
 				nPaths := 0
+				isClosed := func(v *Val) bool { s2, ok := phaseGuardAtom(v); return ok && s2 == terminalSym && !v.Neg }
 				for _, ps := range paths {
-					closed := hasCond(ps, func(v *Val) bool { s2, ok := phaseGuardAtom(v); return ok && s2 == terminalSym && !v.Neg })
-					if (phase == "closed") != closed {
-						continue
-					}
 					nPaths++
+					fnClosed := hasCond(ps, isClosed)
 					// the player loops on this path
 					var pl []*Loop
 					for _, e := range ps.Events {
@@ -496,11 +494,12 @@ func runC15(c *Ctx) {
 							notFolded := hasCond(bp, func(v *Val) bool {
 								return v.K == KAtom && v.At.Op == "b" && v.Neg && strings.HasSuffix(v.At.L, ".Fold")
 							})
+							closed := fnClosed || hasCond(bp, isClosed)
 							if isViewer || (closed && notFolded) {
 								continue
 							}
 							allBody = false
-							why = append(why, "body path ["+bp.CondString()+"] keeps "+f)
+							why = append(why, "body path ["+bp.CondString()+"] keeps "+f+" (function path ["+ps.CondString()+"])")
 						}
 						if allBody {
 							okLoop = true
@@ -510,13 +509,7 @@ func runC15(c *Ctx) {
 						bad = append(bad, uniq(why, 2)...)
 					}
 				}
-				if nPaths == 0 {
-					if phase == "closed" {
-						c.Notes = append(c.Notes, fnKey(fn)+" has no separate closed-hand branch: every state is treated as open (stricter than required)")
-					}
-					continue
-				}
-				c.check(len(bad) == 0, "redaction", fnKey(fn)+"#player:"+f+":"+phase, p.FnPos(fn), fmt.Sprintf("emptied for every player except the allowed exemptions (%d function paths)", nPaths), "a per-player secret survives", uniq(bad, 3)...)
+				c.check(len(bad) == 0 && nPaths > 0, "redaction", fnKey(fn)+"#player:"+f, p.FnPos(fn), fmt.Sprintf("emptied for every player except the viewer and, once the hand is closed, players who did not fold (%d function paths)", nPaths), "a per-player secret survives", uniq(bad, 3)...)
 			}
 		}
 		// (3) write set ⊆ secret set; nothing written on the viewer's own path
@@ -550,7 +543,7 @@ func runC15(c *Ctx) {
 			n++
 		}
 	}
-	c.floor("redaction", "redaction obligations", n, 10)
+	c.floor("redaction", "redaction obligations", n, 8)
 	_ = sort.Strings
 }
 
